@@ -35,6 +35,10 @@ package ice
 //@   site call HandleBindingRequest#1 assert selector-only-when-authenticated: a.gUserOK && a.gIntegOK
 //@   site call GetFrom#2 ghost a.gTbOK := result == nil
 //@   site call handleRoleConflict#1 assert C05 conflict-only-on-same-role: a.gTbOK && remoteTieBreaker.Role == ite(a.isControlling != 0, Controlling, Controlled) && arg4 == remoteTieBreaker
+//@   ghostvar conflicted bool = false
+//@   site call handleRoleConflict#1 ghost conflicted := true
+//@   site call HandleBindingRequest#1 assert C05 a-request-that-raised-a-role-conflict-is-never-processed-further: !conflicted
+//@   ensures C05 a-conflicting-request-is-not-accepted: conflicted ==> !ok
 //@   site call HandleBindingRequest#1 assert C05 conflicting-request-never-reaches-selector: !(a.gTbOK && remoteTieBreaker.Role == ite(a.isControlling != 0, Controlling, Controlled))
 //@   ensures reject-bad-username: !a.gUserOK ==> remoteCand == nil && !ok && unchangedExcept("H_ice.Agent.gUserOK", "H_ice.Agent.gIntegOK")
 //@   ensures reject-bad-integrity: a.gUserOK && !a.gIntegOK ==> remoteCand == nil && !ok && unchangedExcept("H_ice.Agent.gUserOK", "H_ice.Agent.gIntegOK")
